@@ -117,6 +117,85 @@ def _const_true(cond, expected):
         return False
 
 
+def _ub(t, depth=0):
+    """Upper bound of a usize term built from constants and elements of constant ranges (`for i in 0..N`), else None."""
+    if depth > 6:
+        return None
+    t = B.peel(t)
+    c = B._const_int(t)
+    if c is not None:
+        return c
+    if t.op == "field" and t.a[1] == "0" and t.a[0].op == "downcast" and t.a[0].a[1] == "Some":
+        nx = B.peel(t.a[0].a[0])
+        if nx.op == "call" and B.cname(nx) == "Iterator::next" and nx.a[1]:
+            src = B.peel(nx.a[1][0])
+            if src.op == "loop":
+                src = B.peel(src.a[2])
+            while src.op == "call" and B.cname(src) in ("IntoIterator::into_iter",) and len(src.a[1]) == 1:
+                src = B.peel(src.a[1][0])
+            if src.op == "agg" and src.a[0][0] == "adt" and src.a[0][1] in ("Range", "RangeInclusive") and len(src.a[1]) == 2:
+                lo_, hi_ = R._cval(src.a[1][0]), R._cval(src.a[1][1])
+                if lo_ is not None and hi_ is not None and 0 <= lo_:
+                    return max(lo_, hi_ - 1)
+        return None
+    if t.op == "field" and t.a[1] == "0" and t.a[0].op == "bin" and t.a[0].a[0] == "AddWithOverflow":
+        a, b = _ub(t.a[0].a[1], depth + 1), _ub(t.a[0].a[2], depth + 1)
+        return a + b if a is not None and b is not None else None
+    if t.op == "bin" and t.a[0] in ("Add", "AddUnchecked"):
+        a, b = _ub(t.a[1], depth + 1), _ub(t.a[2], depth + 1)
+        return a + b if a is not None and b is not None else None
+    return None
+
+
+def _inside_iteration_over(lits, base):
+    """A literal on the path says `iter.next()` returned Some for an iterator over `base` itself (`for x in base`,
+    `base.iter()`, with enumerate / copied / cloned on top): base is non-empty there."""
+    for atom, pol in lits:
+        if not (atom[0] == "atom" and atom[1] == "switch" and len(atom) > 3 and pol and atom[3] == 1 and atom[2].op == "discr"):
+            continue
+        nx = B.peel(atom[2].a[0])
+        if not (nx.op == "call" and B.cname(nx) == "Iterator::next" and nx.a[1]):
+            continue
+        src = B.peel(nx.a[1][0])
+        if src.op == "loop":
+            src = B.peel(src.a[2])
+        k = 0
+        while src.op == "call" and len(src.a[1]) >= 1 and B.cname(src) in ("IntoIterator::into_iter", "slice::<impl [T]>::iter", "Iterator::enumerate", "Iterator::copied", "Iterator::cloned") and k < 6:
+            src = B.peel(src.a[1][0])
+            k += 1
+        if strip_sites(src) == strip_sites(base):
+            return True
+    return False
+
+
+def _element_index_in_bounds(ix, lnform, lits):
+    """`ix` is a position below the length `lnform` (a `B._len_term` form): an element of `0..len`, or a value a guard on
+    the path compares as `ix < len`."""
+    ixp = B.peel(ix)
+    if ixp.op == "field" and ixp.a[1] == "0" and ixp.a[0].op == "downcast" and ixp.a[0].a[1] == "Some":
+        nx = B.peel(ixp.a[0].a[0])
+        if nx.op == "call" and B.cname(nx) == "Iterator::next" and nx.a[1]:
+            src = B.peel(nx.a[1][0])
+            if src.op == "loop":
+                src = B.peel(src.a[2])
+            while src.op == "call" and B.cname(src) in ("IntoIterator::into_iter",) and len(src.a[1]) == 1:
+                src = B.peel(src.a[1][0])
+            if src.op == "agg" and src.a[0][0] == "adt" and src.a[0][1] == "Range" and len(src.a[1]) == 2:
+                lo_, hi_ = src.a[1]
+                if B._const_int(lo_) is not None and B._const_int(lo_) >= 0 and B._len_term(strip_sites(hi_)) == lnform:
+                    return ("range-index", "index ranges over %s..len of the indexed sequence" % B._const_int(lo_))
+    for atom, pol in lits:
+        if atom[0] == "atom" and atom[1] == "cmp":
+            op, x, y = atom[2], atom[3], atom[4]
+            if not pol:
+                op = R._NEG[op]
+            if op == "Lt" and strip_sites(B.peel(x)) == strip_sites(ixp) and B._len_term(strip_sites(y)) == lnform:
+                return ("len-guard", "dominated by index < len of the indexed sequence")
+            if op == "Gt" and strip_sites(B.peel(y)) == strip_sites(ixp) and B._len_term(strip_sites(x)) == lnform:
+                return ("len-guard", "dominated by len of the indexed sequence > index")
+    return None
+
+
 def discharge(P, s):
     """Return (rule, explanation) if the site provably cannot abort, else None."""
     f = s["fn"]
@@ -145,9 +224,22 @@ def discharge(P, s):
                         src = B.peel(src.a[1][0])
                     if src.op == "agg" and src.a[0][0] == "adt" and src.a[0][1] == "Range" and len(src.a[1]) == 2:
                         lo_, hi_ = src.a[1]
-                        if B._const_int(lo_) is not None and B._const_int(lo_) >= 0 and (strip_sites(hi_) == ln or (B._const_int(hi_) is not None and B._const_int(ln) is not None and B._const_int(hi_) <= B._const_int(ln))):
+                        if B._const_int(lo_) is not None and B._const_int(lo_) >= 0 and (strip_sites(hi_) == ln or B._len_term(strip_sites(hi_)) == B._len_term(ln) or (B._const_int(hi_) is not None and B._const_int(ln) is not None and B._const_int(hi_) <= B._const_int(ln))):
                             return ("range-index", "index ranges over %s..len of the indexed array" % B._const_int(lo_))
+            r_ = _element_index_in_bounds(ix, B._len_term(ln), lits)
+            if r_:
+                return r_
             ci = B._const_int(ix)
+            if ci is None:
+                # bounded index (`bytes[i + 1]` for i in 0..N) under a guard that pins / bounds the length from below
+                ub_ = _ub(ix)
+                if ub_ is not None and ln.op in ("len", "call"):
+                    base_ = B.peel(ln.a[0] if ln.op == "len" else (ln.a[1][0] if ln.a[1] else ln))
+                    if base_.op == "param" and R.len_at_least(lits, base_.a[1], ub_ + 1):
+                        return ("len-guard", "index <= %d and dominated by len(%s) >= %d" % (ub_, base_.a[1], ub_ + 1))
+                    cl_ = B._const_int(ln)
+                    if cl_ is not None and ub_ < cl_:
+                        return ("const", "index <= %d < fixed length %d" % (ub_, cl_))
             # constant index into a fixed-size array
             cl = B._const_int(ln)
             if ci is not None and cl is not None and ci < cl:
@@ -224,6 +316,8 @@ def discharge(P, s):
                         return ("chunk-len", "closure parameter is a chunk/window of fixed length %d, index %d is in bounds" % (_closure_param_chunk_len(P, f, base), ci))
                     if ci == 0 and f.kind == "Closure" and _closure_runs_on_element_of(P, f, base):
                         return ("iter-nonempty", "the closure only runs for an element of the same slice, so the slice is non-empty and index 0 exists")
+                    if ci == 0 and base.op == "param" and _inside_iteration_over(lits, base):
+                        return ("iter-nonempty", "reached only on the Some edge of next() over the same slice, so the slice is non-empty and index 0 exists")
                     if base.op == "param":
                         # combine_shares / core_combine Ok-arm implies len >= 2
                         for atom, pol in lits:
@@ -309,6 +403,22 @@ def discharge(P, s):
                             op = R._NEG[op]
                         if op == "Le" and _is_len_minus(y, buf, st) and _is_sum_of(en, st, x):
                             return ("len-guard", "dominated by L <= len(buf) - n for the slice buf[n..n+L]")
+    if k == "call:index" and site is not None and len(site.args) == 2:
+        # `v[i]` on a Vec / slice value with an element position
+        buf_ = strip_sites(B.peel(site.args[0]))
+        r = _element_index_in_bounds(strip_sites(site.args[1]), ("len", buf_), lits)
+        if r:
+            return r
+        ci_ = B._const_int(site.args[1])
+        if ci_ is not None:
+            # constant position in a buffer whose length is a known constant (`vec![0u8; N]`, arrays, written prefixes)
+            try:
+                tl_ = B._total_len(B.nf(ev, site.args[0]))
+                lf_ = B._lin(tl_) if tl_ is not None else None
+            except Exception:
+                lf_ = None
+            if lf_ is not None and not any(lf_[1].values()) and 0 <= ci_ < lf_[0]:
+                return ("const", "index %d < known buffer length %d" % (ci_, lf_[0]))
     if k in ("call:index", "call:split_at") and site is not None and len(site.args) == 2:
         r = _slice_in_bounds(ev, site, lits)
         if r:
@@ -481,6 +591,22 @@ def _unref(t):
     return t
 
 
+def _typed_len(P, t):
+    """N when `t` is (a reference to) the `[u8; N]` returned by a crate function - on every alternative of a merge."""
+    import re as _re
+
+    if P is None:
+        return None
+    t = B.peel(t)
+    if t.op == "phi":
+        ns = {_typed_len(P, x) for x in t.a[0]}
+        return ns.pop() if len(ns) == 1 else None
+    if t.op == "call" and B.cname(t) in P.fns:
+        m = _re.match(r"^\[u8; (\d+)\]$", str(P.fns[B.cname(t)].locals[0].get("ty")))
+        return int(m.group(1)) if m else None
+    return None
+
+
 def _copy_len_ok(ev, f, b, dst, src, lits):
     d = _unref(dst)
     # dst = repr.as_mut() (32 bytes), src = &[u8; N] with N = 32
@@ -514,6 +640,14 @@ def _copy_len_ok(ev, f, b, dst, src, lits):
                     return ("len-guard", "dominated by the comparison |source| == %s = |destination|" % B._show_len(dl))
     except Exception:
         pass
+    # |src| from the declared return type `[u8; N]` of the crate function(s) that produced it, |dst| a constant linear form
+    try:
+        sn = _typed_len(_CUR.get("P"), src)
+        dlf = B._lin(B.int_form(T("len", dst)))
+        if sn is not None and dlf is not None and not any(dlf[1].values()) and dlf[0] == sn:
+            return ("length-eq", "source is a [u8; %d] by the declared return type of its producer and the destination is %d bytes long" % (sn, sn))
+    except Exception:
+        pass
     # tiling writes of compute_y
     if d.op == "call" and B.cname(d) in ("IndexMut::index_mut",):
         segs = B.nf(ev, T("mutcall", ("slice::<impl [T]>::copy_from_slice", ()), 0, (dst, src)))
@@ -526,6 +660,9 @@ def _interval_ok(P, f, ev, b, t, ops, lits):
     kind = t["kind"]
     o = [strip_sites(x) for x in ops]
     if kind == "Overflow(Add)" and len(o) == 2:
+        ubs = [_ub(x) for x in o]
+        if all(u is not None for u in ubs) and sum(ubs) < 2 ** 32:
+            return ("interval", "both operands are bounded by constants (%d + %d)" % tuple(ubs))
         # 8 + len(x): len <= isize::MAX so no overflow; n + L with L <= len - n
         for x in o:
             ci = B._const_int(x)
